@@ -385,34 +385,79 @@ Op(name) == [op |-> name, start |-> 0, pw |-> 0, aw |-> 0, mx |-> 0]
 PruneOp(start, pw, aw, mx) == [op |-> "Prune", start |-> start, pw |-> pw, aw |-> aw, mx |-> mx]
 On(name) == name \in OPS
 
-NextOps ==
-    \/ On("Tick") /\ \E h \in ClockVals : h > clk /\ Tick(h) /\ last' = Op("Tick")
-    \/ On("NewChange") /\ lastChange < MaxChanges /\ NewChange("k", "s") /\ last' = Op("NewChange")
-    \/ On("NewTask") /\ lastTask < MaxTasks /\ NewTask("k", "s") /\ last' = Op("NewTask")
-    \/ On("AddTask") /\ \E c \in DOMAIN changes, t \in DOMAIN tasks : AddTask(c, t) /\ last' = Op("AddTask")
-    \/ On("WaitFor") /\ \E a, b \in DOMAIN tasks : tasks[a].change = tasks[b].change /\ WaitFor(a, b) /\ last' = Op("WaitFor")
-    \/ On("Lane") /\ lastLane < MaxLanes /\ NewLane /\ last' = Op("NewLane")
-    \/ On("Lane") /\ \E t \in DOMAIN tasks, l \in 1..lastLane : Len(tasks[t].lanes) < 2 /\ JoinLane(t, l) /\ last' = Op("JoinLane")
-    \/ On("SetStatus") /\ \E t \in DOMAIN tasks, s \in StatusVals \ {"Wait"} : SetStatus(t, s) /\ last' = Op("SetStatus")
-    \/ On("SetToWait") /\ \E t \in DOMAIN tasks, s \in StatusVals \ {"Wait"} : SetToWait(t, s) /\ last' = Op("SetToWait")
-    \/ On("ChangeSetStatus") /\ \E c \in DOMAIN changes, s \in StatusVals \cup {"Default"} : ChangeSetStatus(c, s) /\ last' = Op("ChangeSetStatus")
-    \/ On("TaskData") /\ \E t \in DOMAIN tasks, k \in Keys, v \in Vals : TaskSet(t, k, v) /\ last' = Op("TaskSet")
-    \/ On("ChangeData") /\ \E c \in DOMAIN changes, k \in Keys, v \in Vals : ChangeSet(c, k, v) /\ last' = Op("ChangeSet")
-    \/ On("StateData") /\ \E k \in Keys, v \in Vals : StateSet(k, v) /\ last' = Op("StateSet")
-    \/ On("Log") /\ \E t \in DOMAIN tasks : Len(tasks[t].log) < 11 /\ Log(t, "INFO", "m") /\ last' = Op("Log")
-    \/ On("At") /\ \E t \in DOMAIN tasks, w \in {0, Now} : At(t, w) /\ last' = Op("At")
-    \/ On("Clean") /\ \E t \in DOMAIN tasks : SetClean(t) /\ last' = Op("SetClean")
-    \/ On("Notice") /\ lastNotice < MaxChanges + 2
-                    /\ \E key \in {"a", "b"}, rep \in {0, 2} : AddNotice(-1, "warning", key, <<>>, rep, 0) /\ last' = Op("AddNotice")
-    \/ On("Warning") /\ \E m \in {"w1", "w2"} : AddWarning(m, 1, 0) /\ last' = Op("AddWarning")
-    \/ On("Warning") /\ OkayWarnings(Now) /\ last' = Op("OkayWarnings")
-    \/ On("Register") /\ \E k \in Keys : Register(k) /\ last' = Op("Register")
-    \/ On("Prune") /\ \E start \in StartVals, pw \in WaitVals, aw \in WaitVals, mx \in MaxVals :
-                        \E X \in LimitChoices(pw, mx), U \in SUBSET MayAbort(AbortedCs(start, pw, aw)) :
-                            Prune(start, pw, aw, mx, X, U) /\ last' = PruneOp(start, pw, aw, mx)
-    \/ On("SaveReload") /\ SaveReload /\ last' = Op("SaveReload")
+\* terminal-Prune configs stop exploring after a Prune step
+Go == PruneTerminal => last.op # "Prune"
+DoTick ==
+    /\ Go
+    /\ On("Tick") /\ \E h \in ClockVals : h > clk /\ Tick(h) /\ last' = Op("Tick")
+DoNewChange ==
+    /\ Go
+    /\ On("NewChange") /\ lastChange < MaxChanges /\ NewChange("k", "s") /\ last' = Op("NewChange")
+DoNewTask ==
+    /\ Go
+    /\ On("NewTask") /\ lastTask < MaxTasks /\ NewTask("k", "s") /\ last' = Op("NewTask")
+DoAddTask ==
+    /\ Go
+    /\ On("AddTask") /\ \E c \in DOMAIN changes, t \in DOMAIN tasks : AddTask(c, t) /\ last' = Op("AddTask")
+DoWaitFor ==
+    /\ Go
+    /\ On("WaitFor") /\ \E a, b \in DOMAIN tasks : tasks[a].change = tasks[b].change /\ WaitFor(a, b) /\ last' = Op("WaitFor")
+DoNewLane ==
+    /\ Go
+    /\ On("Lane") /\ lastLane < MaxLanes /\ NewLane /\ last' = Op("NewLane")
+DoJoinLane ==
+    /\ Go
+    /\ On("Lane") /\ \E t \in DOMAIN tasks, l \in 1..lastLane : Len(tasks[t].lanes) < 2 /\ JoinLane(t, l) /\ last' = Op("JoinLane")
+DoSetStatus ==
+    /\ Go
+    /\ On("SetStatus") /\ \E t \in DOMAIN tasks, s \in StatusVals \ {"Wait"} : SetStatus(t, s) /\ last' = Op("SetStatus")
+DoSetToWait ==
+    /\ Go
+    /\ On("SetToWait") /\ \E t \in DOMAIN tasks, s \in StatusVals \ {"Wait"} : SetToWait(t, s) /\ last' = Op("SetToWait")
+DoChangeSetStatus ==
+    /\ Go
+    /\ On("ChangeSetStatus") /\ \E c \in DOMAIN changes, s \in StatusVals \cup {"Default"} : ChangeSetStatus(c, s) /\ last' = Op("ChangeSetStatus")
+DoTaskSet ==
+    /\ Go
+    /\ On("TaskData") /\ \E t \in DOMAIN tasks, k \in Keys, v \in Vals : TaskSet(t, k, v) /\ last' = Op("TaskSet")
+DoChangeSet ==
+    /\ Go
+    /\ On("ChangeData") /\ \E c \in DOMAIN changes, k \in Keys, v \in Vals : ChangeSet(c, k, v) /\ last' = Op("ChangeSet")
+DoStateSet ==
+    /\ Go
+    /\ On("StateData") /\ \E k \in Keys, v \in Vals : StateSet(k, v) /\ last' = Op("StateSet")
+DoLog ==
+    /\ Go
+    /\ On("Log") /\ \E t \in DOMAIN tasks : Len(tasks[t].log) < 11 /\ Log(t, "INFO", "m") /\ last' = Op("Log")
+DoAt ==
+    /\ Go
+    /\ On("At") /\ \E t \in DOMAIN tasks, w \in {0, Now} : At(t, w) /\ last' = Op("At")
+DoSetClean ==
+    /\ Go
+    /\ On("Clean") /\ \E t \in DOMAIN tasks : SetClean(t) /\ last' = Op("SetClean")
+DoAddNotice ==
+    /\ Go
+    /\ On("Notice") /\ lastNotice < MaxChanges + 2
+                       /\ \E key \in {"a", "b"}, rep \in {0, 2} : AddNotice(-1, "warning", key, <<>>, rep, 0) /\ last' = Op("AddNotice")
+DoAddWarning ==
+    /\ Go
+    /\ On("Warning") /\ \E m \in {"w1", "w2"} : AddWarning(m, 1, 0) /\ last' = Op("AddWarning")
+DoOkayWarnings ==
+    /\ Go
+    /\ On("Warning") /\ OkayWarnings(Now) /\ last' = Op("OkayWarnings")
+DoRegister ==
+    /\ Go
+    /\ On("Register") /\ \E k \in Keys : Register(k) /\ last' = Op("Register")
+DoPrune ==
+    /\ Go
+    /\ On("Prune") /\ \E start \in StartVals, pw \in WaitVals, aw \in WaitVals, mx \in MaxVals :
+                           \E X \in LimitChoices(pw, mx), U \in SUBSET MayAbort(AbortedCs(start, pw, aw)) :
+                               Prune(start, pw, aw, mx, X, U) /\ last' = PruneOp(start, pw, aw, mx)
+DoSaveReload ==
+    /\ Go
+    /\ On("SaveReload") /\ SaveReload /\ last' = Op("SaveReload")
 
-Next == (PruneTerminal => last.op # "Prune") /\ NextOps
+Next == DoTick \/ DoNewChange \/ DoNewTask \/ DoAddTask \/ DoWaitFor \/ DoNewLane \/ DoJoinLane \/ DoSetStatus \/ DoSetToWait \/ DoChangeSetStatus \/ DoTaskSet \/ DoChangeSet \/ DoStateSet \/ DoLog \/ DoAt \/ DoSetClean \/ DoAddNotice \/ DoAddWarning \/ DoOkayWarnings \/ DoRegister \/ DoPrune \/ DoSaveReload
 Bound == TLCGet("level") <= MaxDepth /\ \A k \in DOMAIN notices : notices[k].occ <= MaxOcc
 Spec == Init /\ last = Op("Init") /\ [][Next]_vars
 
